@@ -1,4 +1,18 @@
 //! Verification base allocators (environment stubs) and shared oracles.
+
+/// An oracle: `assert!` plus a cover of its negation. When the assertion fails the cover is satisfied, and Kani
+/// prints a concrete-playback test for a satisfied cover reliably (for some failed assertions it prints none);
+/// the driver uses that test to replay the violation natively. On a tree where the property holds these covers are
+/// unsatisfiable; the driver ignores them as vacuity witnesses.
+#[macro_export]
+macro_rules! check {
+    ($c:expr, $m:literal) => {{
+        let ok: bool = $c;
+        kani::cover!(!ok, $m);
+        assert!(ok, $m);
+    }};
+}
+
 use bump_scope::alloc::{AllocError, Allocator};
 use bump_scope::settings::{BumpAllocatorSettings, BumpSettings};
 use bump_scope::stats::Stats;
@@ -87,7 +101,7 @@ unsafe fn va_allocate<const EXTRA: usize>(layout: Layout) -> Result<NonNull<[u8]
             return Err(AllocError);
         }
         BUDGET -= 1;
-        assert!(NGRANTS < LOGN, "harness: more base-allocator grants than the log can hold");
+        check!(NGRANTS < LOGN, "harness: more base-allocator grants than the log can hold");
         LOG[NGRANTS] = Grant { addr: p as usize, requested: layout.size(), granted: layout.size() + EXTRA, align: layout.align(), live: true };
         NGRANTS += 1;
         Ok(NonNull::slice_from_raw_parts(NonNull::new_unchecked(p), layout.size() + EXTRA))
@@ -112,7 +126,7 @@ unsafe fn va_allocate_over(layout: Layout) -> Result<NonNull<[u8]>, AllocError> 
             return Err(AllocError);
         }
         BUDGET -= 1;
-        assert!(NGRANTS < LOGN, "harness: more base-allocator grants than the log can hold");
+        check!(NGRANTS < LOGN, "harness: more base-allocator grants than the log can hold");
         LOG[NGRANTS] = Grant { addr: p as usize, requested: layout.size(), granted: layout.size(), align: layout.align(), live: true };
         NGRANTS += 1;
         Ok(NonNull::slice_from_raw_parts(NonNull::new_unchecked(p), layout.size()))
@@ -127,16 +141,16 @@ unsafe fn va_deallocate(ptr: NonNull<u8>, layout: Layout) {
         while k < LOGN {
             if k < NGRANTS && LOG[k].addr == addr {
                 found = true;
-                assert!(LOG[k].live, "C05: block released twice");
-                assert!(LOG[k].align == layout.align(), "C05: block released with a different alignment");
-                assert!(layout.size() >= LOG[k].requested && layout.size() <= LOG[k].granted, "C05: block released with a size outside [requested, granted]");
+                check!(LOG[k].live, "C05: block released twice");
+                check!(LOG[k].align == layout.align(), "C05: block released with a different alignment");
+                check!(layout.size() >= LOG[k].requested && layout.size() <= LOG[k].granted, "C05: block released with a size outside [requested, granted]");
                 LOG[k].live = false;
                 NRELEASED += 1;
                 std::alloc::dealloc(ptr.as_ptr(), Layout::from_size_align_unchecked(LOG[k].granted, LOG[k].align));
             }
             k += 1;
         }
-        assert!(found, "C05: released a pointer that was never granted");
+        check!(found, "C05: released a pointer that was never granted");
     }
 }
 
@@ -224,18 +238,18 @@ pub fn assert_stats_coherent<A, St: BumpAllocatorSettings>(stats: Stats<'_, A, S
             let s = c.content_start().as_ptr() as usize;
             let e = c.content_end().as_ptr() as usize;
             let pos = c.bump_position().as_ptr() as usize;
-            assert!(c.size() == ce - cs && c.size() % 16 == 0, "C10: chunk size is not a multiple of 16");
-            assert!(cs <= s && s <= e && e <= ce, "C10: content range outside the chunk");
+            check!(c.size() == ce - cs && c.size() % 16 == 0, "C10: chunk size is not a multiple of 16");
+            check!(cs <= s && s <= e && e <= ce, "C10: content range outside the chunk");
             if St::UP {
-                assert!(s - cs == header_size && e == ce, "C10: header is not at the start of the chunk (up)");
+                check!(s - cs == header_size && e == ce, "C10: header is not at the start of the chunk (up)");
             } else {
-                assert!(ce - e == header_size && s == cs, "C10: header is not at the end of the chunk (down)");
+                check!(ce - e == header_size && s == cs, "C10: header is not at the end of the chunk (down)");
             }
-            assert!(pos >= s && pos <= e, "C10: bump position outside the content range");
-            assert!(c.capacity() == e - s, "C10: chunk capacity differs from its content range");
-            assert!(c.allocated() + c.remaining() == c.capacity(), "C10: allocated + remaining != capacity (chunk)");
+            check!(pos >= s && pos <= e, "C10: bump position outside the content range");
+            check!(c.capacity() == e - s, "C10: chunk capacity differs from its content range");
+            check!(c.allocated() + c.remaining() == c.capacity(), "C10: allocated + remaining != capacity (chunk)");
             if count > 0 {
-                assert!(c.size() > prev_size, "C10: later chunk not strictly larger than its predecessor");
+                check!(c.size() > prev_size, "C10: later chunk not strictly larger than its predecessor");
             }
             prev_size = c.size();
             size += c.size();
@@ -245,28 +259,28 @@ pub fn assert_stats_coherent<A, St: BumpAllocatorSettings>(stats: Stats<'_, A, S
         }
         k += 1;
     }
-    assert!(it.next().is_none(), "harness: more than 3 chunks");
+    check!(it.next().is_none(), "harness: more than 3 chunks");
     // backwards is the same sequence reversed
     let mut bt = stats.big_to_small();
     let mut j = 0;
     while j < 3 {
         if j < count {
             match bt.next() {
-                Some(c) => assert!(c.chunk_start().as_ptr() as usize == fw[count - 1 - j], "C10: chunk list differs when read backwards"),
+                Some(c) => check!(c.chunk_start().as_ptr() as usize == fw[count - 1 - j], "C10: chunk list differs when read backwards"),
                 None => panic!("C10: chunk list shorter when read backwards"),
             }
         }
         j += 1;
     }
-    assert!(bt.next().is_none(), "C10: chunk list longer when read backwards");
-    assert!(stats.count() == count, "C10: count() differs from the number of chunks");
-    assert!(stats.size() == size, "C10: size() differs from the sum of chunk sizes");
-    assert!(stats.capacity() == cap, "C10: capacity() differs from the sum of chunk capacities");
-    assert!(stats.allocated() + stats.remaining() == stats.capacity(), "C10: allocated + remaining != capacity");
-    assert!(stats.capacity() <= stats.size(), "C10: capacity > size");
+    check!(bt.next().is_none(), "C10: chunk list longer when read backwards");
+    check!(stats.count() == count, "C10: count() differs from the number of chunks");
+    check!(stats.size() == size, "C10: size() differs from the sum of chunk sizes");
+    check!(stats.capacity() == cap, "C10: capacity() differs from the sum of chunk capacities");
+    check!(stats.allocated() + stats.remaining() == stats.capacity(), "C10: allocated + remaining != capacity");
+    check!(stats.capacity() <= stats.size(), "C10: capacity > size");
     if let Some(c) = stats.current_chunk() {
         let pos = c.bump_position().as_ptr() as usize;
-        assert!(pos % St::MIN_ALIGN == 0, "C10: bump position is not a multiple of the minimum alignment");
+        check!(pos % St::MIN_ALIGN == 0, "C10: bump position is not a multiple of the minimum alignment");
     }
 }
 
